@@ -88,6 +88,15 @@ def _sizes_equal(a, b, path=""):
             vb = vb.__target__
         if isinstance(va, m.Structure) and isinstance(vb, m.Structure):
             bad += _sizes_equal(va, vb, f"{path}.{f._name}")
+        elif isinstance(va, list) and isinstance(vb, list):
+            stack = [(va, vb, f"{path}.{f._name}")]
+            while stack:
+                la, lb, pth = stack.pop()
+                for i_, (xa, xb) in enumerate(zip(la, lb)):
+                    if isinstance(xa, m.Structure) and isinstance(xb, m.Structure):
+                        bad += _sizes_equal(xa, xb, f"{pth}[{i_}]")
+                    elif isinstance(xa, list) and isinstance(xb, list):
+                        stack.append((xa, xb, f"{pth}[{i_}]"))
     return bad
 
 
@@ -184,13 +193,79 @@ def run_case(case, ctx):
         ctx.sample(common.describe(case, {"inputs": len(inputs), "parsed": parsed}), "aligned" if case["cfg"]["align"] else "packed")
 
 
+CUSTOM_DEF = "struct In {{ uint8 k; offbyone b; }};\nstruct Root {{ uint8 a; {m0} offbyone c; {m1} uint16 d[2]; {m2} uint8 e; }};\n"
+CUSTOM_MEMBERS = ["", "offbyone b2[2];", "In s;", "In sa[2];", "offbyone m[2][2];", "uint8 n; offbyone dyn[n];", "offbyone *p;", "uint8 f0 : 3; uint8 f1 : 5;"]
+
+
+@st.composite
+def custom_case(draw):
+    return {"custom": True, "members": [draw(st.sampled_from(CUSTOM_MEMBERS)) for _ in range(3)], "endian": draw(st.sampled_from("<>")), "align": draw(st.booleans()),
+            "data": draw(st.binary(min_size=120, max_size=120)).hex(), "cut": draw(st.integers(0, 119))}
+
+
+def _run_custom(case, ctx):
+    """A type the compiler does not know (a custom BaseType of static size) as scalar, nested member, array element:
+    the structure falls back or compiles, but both readers agree."""
+    m = import_repo()
+    from dissect.cstruct.types import BaseType
+
+    class OffByOne(int, BaseType):
+        type = None
+
+        @classmethod
+        def _read(cls, stream, context=None):
+            return cls(cls.type._read(stream, context) + 1)
+
+        @classmethod
+        def _write(cls, stream, data):
+            return cls.type._write(stream, data - 1)
+
+    members = []
+    for i, mm in enumerate(case["members"]):
+        for nm in ("b2", "s", "sa", "m", "n", "dyn", "p", "f0", "f1"):
+            mm = mm.replace(f" {nm}", f" {nm}_{i}").replace(f"[{nm}]", f"[{nm}_{i}]").replace(f"*{nm}", f"*{nm}_{i}")
+        members.append(mm)
+    text = CUSTOM_DEF.format(m0=members[0], m1=members[1], m2=members[2])
+    data = bytearray(bytes.fromhex(case["data"]))
+    outs = []
+    for compiled in (False, True):
+        cs = m.cstruct(endian=case["endian"])
+        cs.add_custom_type("offbyone", OffByOne, 8, 8, type=cs.uint64)
+        r = lib(cs.load, text, compiled=compiled, align=case["align"])
+        if isinstance(r, Err):
+            raise Violation("no-fallback", f"compiled={compiled} load raised {r}:\n{text}", r.where)
+        T = cs.Root
+        res = []
+        for inp in (bytes(data), bytes(data[: case["cut"]])):
+            s_ = io.BytesIO(inp)
+            o = lib(T, s_)
+            res.append((("raised", o.type) if isinstance(o, Err) else ("value", libside.cplain(o), dict(getattr(o, "_sizes", {}) or {})), s_.tell() if not isinstance(o, Err) else None))
+        outs.append(res)
+    if outs[0] != outs[1]:
+        raise Violation("values-differ", f"a structure using the custom type 'offbyone' (align={case['align']}, endian {case['endian']}): interpreted {outs[0]!r} vs compiled {outs[1]!r}\n{text}\ndata {bytes(data).hex()} cut {case['cut']}")
+    ctx.count("custom:" + ("+".join(sorted({mm.split()[0] + ("[]" if "[" in mm else "") for mm in case["members"] if mm})) or "scalar-only"))
+    ctx.mark_nontrivial(case)
+    ctx.sample({"definition": text, "align": case["align"]}, "custom")
+
+
+_run_generated = run_case
+
+
+def run_case(case, ctx):  # noqa: F811 - dispatch on the case kind
+    if case.get("custom"):
+        return _run_custom(case, ctx)
+    return _run_generated(case, ctx)
+
+
 def stages(tier):
     if tier == "quick":
         return [
             HypStage("diff", diff_case, examples=500, shards=10),
+            HypStage("custom-types", custom_case, examples=300, shards=2),
             EnumStage("triples", triple_cases, shards=6, scope="every ordered triple of 14 field kinds x {packed, aligned} (5488 definitions) x full input, all cut points, one raw input"),
         ]
     return [
         HypStage("diff", diff_case, examples=2000, shards=16),
+        HypStage("custom-types", custom_case, examples=2500, shards=4),
         EnumStage("triples", triple_cases, shards=8, scope="every ordered triple of 14 field kinds x {packed, aligned} (5488 definitions) x full input, all cut points, one raw input"),
     ]
